@@ -29,16 +29,16 @@ SPEC = dict(
     coq_targets=["props/C21.vo"],
     drivers=[
         dict(name="policy", kind="main", pkg="./zzverif/c21",
-             n=dict(quick=400, thorough=12000),
+             n=dict(quick=450, thorough=12000),
              timeout=dict(quick=300, thorough=1800),
              ev=dict(requires=["V.lib.Bytes", "V.models.Policy"], case_type="Policy.case",
                      mismatch="Policy.mismatch", monitor="Policy.monitor_fail", prelude=_PRELUDE)),
     ],
     classify=classify,
     rule=("a fixed list of the shapes named in the property (no declaration, interface mismatch, deny and allow both matching, "
-          "the four levels disagreeing in both directions, slots-per-plug forms, $PLUG_PUBLISHER_ID with and without "
+          "the four levels disagreeing in both directions, on-core-desktop true/false on classic / core / core desktop as allow and as deny constraint at each of the four levels and for installation on both sides and both levels, device scope with and without a model and with friendly stores, $SLOT_PUBLISHER_ID, nested map/list attribute constraints, slots-per-plug forms, $PLUG_PUBLISHER_ID with and without "
           "declarations) followed by random candidates: 40% Check, 40% CheckAutoConnect, 20% InstallCandidate.Check. Each has "
-          "a random environment (on-classic, os id, core-desktop, optional model brand/model/store, optional store assertion "
+          "a random environment (system kind classic / core / core desktop, os id, optional model brand/model/store, optional store assertion "
           "with friendly stores), plug and slot (name, interface from 3, snap type from app/gadget/kernel/os/snapd/base, "
           "nested static and dynamic attributes), optional plug/slot snap-declarations and a base-declaration whose rules "
           "(per interface: shortcut, or up to six subrules each a shortcut, one alternative or a list) carry 1-3 constraints "
@@ -59,7 +59,7 @@ SPEC = dict(
     assumptions=[
         "regular expressions in plug-names/slot-names and attribute constraints are restricted to top-level alternations of literals (model and generator), matched against the whole string; the rest of the regexp language is outside the model",
         "attribute values are strings, bools, int64, lists and string-keyed maps (no nil, no floats)",
-        "plugs-per-slot is not modelled (the code normalises it to `*` and never reads it)",
+        "plugs-per-slot, and slots-per-plug of plain (non-auto) connections, are not in the tie: the code normalises them to `*` and ConnectCandidate.Check does not return them",
         "InstallCandidateMinimalCheck (--dangerous installs) is not modelled",
     ],
 )
